@@ -33,6 +33,7 @@ impl Scenario for C08 {
             read_faults: true,
             heartbeat: 0,
             explicit_drop_after_server_cancel: false,
+            empty_publish_before_server_cancel: false,
         };
         // a third of the sessions negotiate a 1 s heartbeat and the server takes up to 2.6 s to answer
         // the client's Close (heartbeat timers keep firing while the close handshake is pending)
